@@ -28,6 +28,11 @@ type mutant struct {
 }
 
 func runSelfTest(r *core.Run, module, cfg string, base *core.Trace, muts []mutant) {
+	runSelfTestN(r, module, cfg, []*core.Trace{base}, muts)
+}
+
+// runSelfTestN applies every mutation to the first of the base traces that has a place for it.
+func runSelfTestN(r *core.Run, module, cfg string, bases []*core.Trace, muts []mutant) {
 	tmp, err := core.NewRun(r.Prop, r.Tier, r.Seed)
 	if err != nil {
 		r.Break("self-test: %v", err)
@@ -36,14 +41,21 @@ func runSelfTest(r *core.Run, module, cfg string, base *core.Trace, muts []mutan
 	var traces []*core.Trace
 	var names []string
 	for _, m := range muts {
-		c := cloneTrace(base, "selftest-"+m.name)
-		evs, ok := m.fn(c.Events)
-		if !ok {
-			continue // the base trace has no place for this mutation
+		for i, base := range bases {
+			if base == nil || i > 400 {
+				continue
+			}
+			c := cloneTrace(base, "selftest-"+m.name)
+			c.Meta = base.Meta
+			evs, ok := m.fn(c.Events)
+			if !ok {
+				continue // this trace has no place for the mutation
+			}
+			c.Events = evs
+			traces = append(traces, c)
+			names = append(names, m.name)
+			break
 		}
-		c.Events = evs
-		traces = append(traces, c)
-		names = append(names, m.name)
 	}
 	if len(traces) == 0 {
 		return
@@ -177,5 +189,73 @@ func pqMutants() []mutant {
 			evs[i]["ok"] = false
 			return evs, true
 		}},
+	}
+}
+
+func setField(name string, pred func(core.Event) bool, skip int, field string, val interface{}) mutant {
+	return mutant{name, func(evs []core.Event) ([]core.Event, bool) {
+		i := firstIdx(evs, pred, skip)
+		if i < 0 {
+			return nil, false
+		}
+		evs[i][field] = val
+		return evs, true
+	}}
+}
+
+func dropEvent(name string, pred func(core.Event) bool, skip int) mutant {
+	return mutant{name, func(evs []core.Event) ([]core.Event, bool) {
+		i := firstIdx(evs, pred, skip)
+		if i < 0 {
+			return nil, false
+		}
+		return append(evs[:i:i], evs[i+1:]...), true
+	}}
+}
+
+func lockMutants() []mutant {
+	return []mutant{
+		setField("pending-left-set", func(e core.Event) bool { _, ok := e["pe"]; return ok && e["pe"] == false }, 0, "pe", true),
+		dropEvent("writer-without-acquire", func(e core.Event) bool { return e["ev"] == "WAcq" }, 0),
+		dropEvent("reader-never-unlocks", func(e core.Event) bool { return e["ev"] == "RUnlock" }, 0),
+	}
+}
+
+func apiMutants() []mutant {
+	return []mutant{
+		setField("misuse-accepted", func(e core.Event) bool { return e["ev"] == "Call" && e["res"] == "error" }, 0, "res", "ok"),
+		setField("misuse-changed-state", func(e core.Event) bool { return e["ev"] == "Call" && e["res"] == "error" && e["unchanged"] == true }, 0, "unchanged", false),
+		setField("misuse-panics", func(e core.Event) bool { return e["ev"] == "Call" && e["res"] == "error" }, 0, "res", "panic"),
+		setField("valid-call-fails", func(e core.Event) bool { return e["ev"] == "Call" && e["res"] == "ok" && e["m"] != "Begin" }, 0, "res", "error"),
+	}
+}
+
+func headerMutants() []mutant {
+	return []mutant{
+		{"older-header-chosen", func(evs []core.Event) ([]core.Event, bool) {
+			i := firstIdx(evs, func(e core.Event) bool {
+				return e["ev"] == "Open" && e["res"] == "ok" && e["v0"] == true && e["v1"] == true && e["s0"] != e["s1"]
+			}, 0)
+			if i < 0 {
+				return nil, false
+			}
+			if evs[i]["got"] == evs[i]["s0"] {
+				evs[i]["got"] = evs[i]["s1"]
+			} else {
+				evs[i]["got"] = evs[i]["s0"]
+			}
+			return evs, true
+		}},
+		setField("open-fails-with-one-good-header", func(e core.Event) bool {
+			return e["ev"] == "Open" && e["res"] == "ok" && e["v0"] != e["v1"]
+		}, 0, "res", "error"),
+		setField("open-panics", func(e core.Event) bool { return e["ev"] == "Open" && e["res"] == "ok" }, 2, "res", "panic"),
+	}
+}
+
+func pathLockMutants() []mutant {
+	return []mutant{
+		setField("second-opener-gets-in", func(e core.Event) bool { return e["ev"] == "Path" && e["a"] == "Open" && e["res"] == "lockfailed" }, 0, "res", "ok"),
+		setField("free-path-refused", func(e core.Event) bool { return e["ev"] == "Path" && e["a"] == "Open" && e["res"] == "ok" }, 0, "res", "lockfailed"),
 	}
 }
